@@ -411,8 +411,7 @@ func (h *Sources) InsertMatch(line *core.Line, cur *core.Cursor, usePos, fwd, re
 	// (down to the current input line), reinstore the main line buffer.
 	if !found {
 		if fwd {
-			h.hpos = -1
-			h.Undo()
+			h.restoreLineBuffer()
 		}
 
 		return
